@@ -7,7 +7,7 @@ func baseOps() map[string]int {
 		"propose_dispute": 5, "add_fee": 3, "vote": 10, "withdraw_fee_refund": 3, "claim_reward": 3, "add_evidence": 1, "update_team": 1,
 		"request_attestations": 3, "withdraw_tokens": 3, "claim_deposits": 3, "deposit_report": 6, "register_spec": 1,
 		"gov_proposal": 1, "gov_vote": 6, "privileged_direct": 1, "multi": 3, "wrong_signer": 2, "create_validator": 1, "unjail_validator": 3,
-		"cancel_unbonding": 1, "tie_reports": 2, "tie_vote": 2, "double_report": 3, "dispute_round": 2,
+		"cancel_unbonding": 1, "tie_reports": 2, "tie_vote": 2, "double_report": 3, "dispute_round": 2, "split_reports": 2,
 	}
 }
 
@@ -52,7 +52,7 @@ func ProfileFor(id, tier string) *Profile {
 		p.OneTxBlocks = 0.3
 		p.LongFrac = 0.15
 	case "C04", "C09":
-		bump(map[string]int{"tip": 25, "create_reporter": 12, "select_reporter": 10, "switch_reporter": 4, "withdraw_tip": 8, "gov_proposal": 3, "gov_vote": 12, "double_report": 12})
+		bump(map[string]int{"tip": 25, "create_reporter": 12, "select_reporter": 10, "switch_reporter": 4, "withdraw_tip": 8, "gov_proposal": 3, "gov_vote": 12, "double_report": 12, "split_reports": 10})
 		p.LongFrac = 0.12 // several deposit rounds closing in one block: one time-based reward paid over several aggregates
 	case "C05", "C10":
 		bump(map[string]int{"delegate": 10, "undelegate": 10, "redelegate": 8, "cancel_unbonding": 3, "propose_dispute": 10, "add_fee": 6, "withdraw_fee_refund": 6, "withdraw_tip": 8, "select_reporter": 10, "switch_reporter": 5, "create_validator": 2, "gov_proposal": 3, "gov_vote": 12})
